@@ -1165,7 +1165,7 @@ func fqdnTrailingRun(c *Ctx, r *Report, rule string) {
 			return
 		}
 		n++
-		fromEnd, whole := false, false
+		fromEnd, whole, runeStart := false, false, false
 		for o := range sliceOf(rem.X) {
 			if call, ok := o.(*ssa.Call); ok {
 				switch calleeNameSSA(&call.Call) {
@@ -1176,13 +1176,37 @@ func fqdnTrailingRun(c *Ctx, r *Report, rule string) {
 				}
 			}
 			if phi, ok := o.(*ssa.Phi); ok {
-				// a hand-written backward loop
+				// a hand-written backward loop: the value is the descending index itself, or a counter
+				// advanced in a loop whose index descends
 				for _, e := range phi.Edges {
 					if b, ok := e.(*ssa.BinOp); ok && b.X == ssa.Value(phi) && b.Op == token.SUB {
 						fromEnd = true
 					}
+					if b, ok := e.(*ssa.BinOp); ok && b.X == ssa.Value(phi) && b.Op == token.ADD {
+						for _, in2 := range phi.Block().Instrs {
+							if p2, ok := in2.(*ssa.Phi); ok && p2 != phi {
+								for _, e2 := range p2.Edges {
+									if b2, ok := e2.(*ssa.BinOp); ok && b2.X == ssa.Value(p2) && b2.Op == token.SUB {
+										fromEnd = true
+									}
+								}
+							}
+						}
+					}
 				}
 			}
+		}
+		// the distance len(s) - i is a count of backslashes only if i is the index of the octet before the run:
+		// strings.LastIndexFunc hands out the index at which a RUNE starts, so after a multi-byte rune the
+		// distance is too long by the rune's extra octets and the parity flips
+		for o := range sliceOf(rem.X) {
+			if call, ok := o.(*ssa.Call); ok && (calleeNameSSA(&call.Call) == "strings.LastIndexFunc" || calleeNameSSA(&call.Call) == "strings.IndexFunc") {
+				runeStart = true
+			}
+		}
+		if fromEnd && !whole && runeStart {
+			r.fail(rule, fmt.Sprintf("IsFqdn:parity#%d", n), c.pos(rem.Pos()), "the length of the backslash run is taken as the distance from the index strings.LastIndexFunc returns, which is where a rune STARTS: after a 2- or 4-octet rune the distance is too long by 1 or 3 and the parity flips (`é\\\\.` is taken for not fully qualified, `é\\.` for fully qualified and packed as the root); names are strings of octets")
+			return
 		}
 		r.check(fromEnd && !whole, rule, fmt.Sprintf("IsFqdn:parity#%d", n), c.pos(rem.Pos()), "run before the final dot", "the parity tested is not that of the backslash run directly before the final dot (scan from the end: %v, count over the whole name: %v): a backslash elsewhere in the name flips the verdict, `a\\\\.b\\\\.` is taken for fully qualified and packed without its last label", fromEnd, whole)
 	})
